@@ -352,4 +352,54 @@ def r19_6(ctx: Ctx) -> RuleResult:
     return rr
 
 
-RULES = [r19_1, r19_2, r19_3, r19_4, r19_5, r19_6]
+def r19_7(ctx: Ctx) -> RuleResult:
+    """A level of the projection that exists is never replaced by an empty one.  The insertion helper walks down
+    the value it is building; what it walks through includes the copies of selected values it stored itself, and
+    a selected value may be an array.  `k in X` on an array is a test on the *items*, not on the indices, so a
+    fresh level `X[k] = {}` may only be stored where X is known not to be a list (an isinstance test on the path
+    to the store, or a store inside the handler of a failed lookup)."""
+    from .common import isinstance_classes
+    from .common import path_conditions
+
+    rr = RuleResult("R19.7", "an existing level of the projection is never replaced by an empty one", floor=1)
+    fn = ctx.repo.require_func("jsonpath.fluent_api._patch_obj")
+    n = 0
+    handlers = {id(s): h for t in ast.walk(fn.node) if isinstance(t, ast.Try) for h in t.handlers for s in ast.walk(h)}
+    for st in ast.walk(fn.node):
+        if not (isinstance(st, ast.Assign) and len(st.targets) == 1 and isinstance(st.targets[0], ast.Subscript)):
+            continue
+        v = st.value
+        fresh = (isinstance(v, ast.Dict) and not v.keys) or (isinstance(v, ast.Call) and callee_name(v) == "dict" and not v.args and not v.keywords)
+        if not fresh:
+            continue
+        n += 1
+        subject = path_of(st.targets[0].value)
+        conds = path_conditions(fn.node, st)
+        discriminated = False
+        for t, b in conds:
+            ic = isinstance_classes(t)
+            if ic is None or ic[0] != subject:
+                continue
+            names = set(ic[1])
+            if b and names <= {"dict", "Mapping", "MutableMapping"}:
+                discriminated = True
+            if not b and names & {"list", "Sequence", "MutableSequence"}:
+                discriminated = True
+        h = handlers.get(id(st))
+        if h is not None and h.type is not None and {"KeyError", "IndexError", "LookupError"} & {x.id for x in ast.walk(h.type) if isinstance(x, ast.Name)}:
+            discriminated = True
+        key_tests = [t for t, _b in conds if isinstance(t, ast.Compare) and len(t.ops) == 1 and isinstance(t.ops[0], (ast.In, ast.NotIn))
+                     and path_of(t.comparators[0]) == subject]
+        if discriminated or not key_tests:
+            rr.ok(fn.loc(st), f"`{short(st)}`: stored only where `{subject}` is known to be a mapping (or the lookup failed)")
+        else:
+            rr.bad(fn, st, f"`{short(st)}` is guarded by `{short(key_tests[0])}` only: when `{subject}` is the copy of an array that an "
+                   "earlier query selected as a whole, `in` looks at its items, the index is \"missing\" and the item is replaced by "
+                   "an empty object (`select('a', 'a[0].b')` loses the other members of `a[0]`)",
+                   construct=f"_patch_obj: `{short(st)}` under `{short(key_tests[0])}` without a mapping test")
+    if n == 0:
+        raise AnalysisError("R19.7: _patch_obj no longer creates missing levels as empty dictionaries")
+    return rr
+
+
+RULES = [r19_1, r19_2, r19_3, r19_4, r19_5, r19_6, r19_7]
